@@ -359,8 +359,14 @@ def check_relaxation(rep, prog):
                     # visited: std::get<k>(get(pred_map, w))
                     if s.k == 'CallExpr' and s.callee and s.callee['g'] == 'std::get' and s.args():
                         inner = s.args()[0].strip_all()
+                        if inner.k == 'DeclRefExpr':
+                            inner = ex.alias_of(fn, inner) or inner      # auto &pred_w = pred_map[w];
                         if inner.k == 'CallExpr' and inner.callee and inner.callee['g'] == 'boost::get' and len(inner.args()) == 2 and ex.key(inner.args()[1]) == wk:
                             vis_kind['map'] = ex.var_of(inner.args()[0])
+                            return ex.f_atom('visited')
+                        if inner.k == 'CXXOperatorCallExpr' and inner.op == '[]' and len(inner.c) == 3 and ex.key(inner.c[2]) == wk and \
+                                'property_map' in ((fn.prog.base_type(inner.c[1].strip_all().j.get('t')) or {}).get('canon') or ''):
+                            vis_kind['map'] = ex.var_of(inner.c[1])
                             return ex.f_atom('visited')
                     # visited: flags[index_map[w]] of a std::vector<bool> (the proxy reference is converted by a member call)
                     if s.k == 'CXXMemberCallExpr' and s.object_arg() is not None and s.object_arg().strip_all().k == 'CXXOperatorCallExpr' and \
